@@ -134,7 +134,11 @@ fn packet(spec: &PacketSpec, neighbours: &[PacketSpec], position: usize, st: &mu
         }
     }
     // written with a correct header and padding trailer
-    let bytes = build_valid(spec, How::default(), "C19")?;
+    // the construction path varies with the case: PacketBuilder wrapper, size queries between the setters,
+    // the two independent setters of the unknown-packet builder in the other order (`owned`)
+    let how = How { wrap: position % 2 == 1, owned: spec.padding() % 8 == 4, probe: neighbours.len() == 2, ..How::default() };
+    st.label_if(how.owned, "how:setters-in-the-other-order");
+    let bytes = build_valid(spec, how, "C19")?;
     let want = ref_encode(spec);
     ensure!(bytes == want, format!("C19:{name}:bytes"), "wrote {} want {}", hex(&bytes), hex(&want));
     // accepted by the generic parser as an unknown packet exposing the exact bytes
@@ -185,7 +189,7 @@ fn packet(spec: &PacketSpec, neighbours: &[PacketSpec], position: usize, st: &mu
         }
         members.insert(pos, me.clone());
         let comp = PacketSpec::Compound(members.clone());
-        let cb = build_valid(&comp, How::default(), "C19")?;
+        let cb = build_valid(&comp, how, "C19")?;
         let parsed = no_panic("Compound::parse", || Compound::parse(&cb))?;
         let it = match parsed {
             Ok(it) => it,
